@@ -100,6 +100,7 @@ func (g *gen) probes(t *progen.Type, n int) string {
 	fmt.Fprintf(b, "func ret_%s_%d(x %s) (r %s) {\n\tdefer func() {\n\t\t%s(&r, 4)\n\t}()\n\tr = x\n\treturn r\n}\n\n", ID, n, T, T, MUT)
 	fmt.Fprintf(b, "func retp_%s_%d(x *%s) %s {\n\tdefer %s(x, 5)\n\treturn *x\n}\n\n", ID, n, T, T, MUT)
 	fmt.Fprintf(b, "type alt_%s_%d %s\n\n", ID, n, T)
+	fmt.Fprintf(b, "type narr_%s_%d [2]%s\n\ntype narrh_%s_%d struct {\n\tpre I\n\tarr narr_%s_%d\n}\n\n", ID, n, T, ID, n, ID, n)
 	hasMethods := t.Kind == progen.KStruct
 	if hasMethods {
 		fmt.Fprintf(b, "func (r %s) c07get%d() %s { return r }\n", T, n, T)
@@ -161,6 +162,29 @@ func (g *gen) probes(t *progen.Type, n int) string {
 	w("\tfor i, v := range &arr {")
 	w("\t\tarr[1] = %s(11)", MK)
 	w("\t\temit(\"range-arrptr\", itoa(i)+%s)", S("v"))
+	w("\t}")
+	w("\tna := narr_%s_%d{%s(1), %s(2)}", ID, n, MK, MK)
+	w("\tfor i, v := range na {")
+	w("\t\tna[1] = %s(13)", MK)
+	w("\t\temit(\"range-named-arr\", itoa(i)+%s)", S("v"))
+	w("\t}")
+	w("\tnh := narrh_%s_%d{arr: narr_%s_%d{%s(1), %s(2)}}", ID, n, ID, n, MK, MK)
+	w("\tnp := &nh")
+	w("\tfor i, v := range nh.arr {")
+	w("\t\t%s(&np.arr[1], 15)", MUT)
+	w("\t\temit(\"range-named-arr-field\", itoa(i)+%s)", S("v"))
+	w("\t}")
+	w("\tfor i, v := range np.arr {")
+	w("\t\tnh.arr[1] = %s(17)", MK)
+	w("\t\temit(\"range-named-arr-ptrfield\", itoa(i)+%s)", S("v"))
+	w("\t}")
+	w("\tfor i, v := range [2]%s(na) {", T)
+	w("\t\tna[1] = %s(19)", MK)
+	w("\t\temit(\"range-arr-conv\", itoa(i)+%s)", S("v"))
+	w("\t}")
+	w("\tfor i, v := range narr_%s_%d(arr) {", ID, n)
+	w("\t\tarr[1] = %s(21)", MK)
+	w("\t\temit(\"range-named-arr-conv\", itoa(i)+%s)", S("v"))
 	w("\t}")
 	w("\tsl := []%s{%s(1), %s(2)}", T, MK, MK)
 	w("\tfor _, v := range sl {")
@@ -368,6 +392,43 @@ func (g *gen) probes(t *progen.Type, n int) string {
 	w("\temit(\"copy-overlap\", itoa(cp)+%s+\"|\"+%s)", S("sl[0]"), S("sl[1]"))
 	w("\tcopy(sl[1:], sl)")
 	w("\temit(\"copy-overlap2\", %s+\"|\"+%s)", S("sl[1]"), S("sl[2]"))
+	w("\tfor l := 0; l <= 3; l++ { // append below, at and above the capacity: sharing of the backing array")
+	w("\t\tfor c := l; c <= 4; c++ {")
+	w("\t\t\tfor k := 0; k <= c-l+1; k++ {")
+	w("\t\t\t\tbase := make([]%s, 5)", T)
+	w("\t\t\t\tfor i := range base {")
+	w("\t\t\t\t\tbase[i] = %s(I(i))", MK)
+	w("\t\t\t\t}")
+	w("\t\t\t\ts := base[:l:c]")
+	w("\t\t\t\tvar t []%s", T)
+	w("\t\t\t\tswitch k {")
+	w("\t\t\t\tcase 0:")
+	w("\t\t\t\t\tt = append(s)")
+	w("\t\t\t\tcase 1:")
+	w("\t\t\t\t\tt = append(s, %s(50))", MK)
+	w("\t\t\t\tcase 2:")
+	w("\t\t\t\t\tt = append(s, %s(50), %s(51))", MK, MK)
+	w("\t\t\t\tdefault:")
+	w("\t\t\t\t\tvar add []%s", T)
+	w("\t\t\t\t\tfor j := 0; j < k; j++ {")
+	w("\t\t\t\t\t\tadd = append(add, %s(I(50+j)))", MK)
+	w("\t\t\t\t\t}")
+	w("\t\t\t\t\tt = append(s, add...)")
+	w("\t\t\t\t}")
+	w("\t\t\t\tr := itoa(l) + itoa(c) + itoa(k) + itoa(len(t))")
+	w("\t\t\t\tif l+k <= c {")
+	w("\t\t\t\t\tr += \"c\" + itoa(cap(t))")
+	w("\t\t\t\t}")
+	w("\t\t\t\tif len(t) > 0 {")
+	w("\t\t\t\t\tr += btoa(&t[0] == &base[0])")
+	w("\t\t\t\t\t%s(&t[len(t)-1], 7)", MUT)
+	w("\t\t\t\t\t%s(&base[0], 8)", MUT)
+	w("\t\t\t\t\tr += %s + \"|\" + %s + \"|\" + %s", S("t[0]"), S("base[len(t)-1]"), S("base[4]"))
+	w("\t\t\t\t}")
+	w("\t\t\t\temit(\"append-cap\", r)")
+	w("\t\t\t}")
+	w("\t\t}")
+	w("\t}")
 	w("\tsl = append(sl[:1], sl[2:]...)")
 	w("\tsl = append(sl, sl...)")
 	w("\temit(\"self-append\", itoa(len(sl))+%s)", S("sl[len(sl)-1]"))
